@@ -74,7 +74,11 @@ def judge(chk, case):
     if probs:
         block = lp.run_block(dg['point'])
         sending = any(fr[1] in ('put', 'send', 'send_msg', '_send_result', 'child_end', 'sendall', '_send_bytes', 'remote_dumps') for fr in dg['point'].get('stack') or [])
-        key = '%s:%s:%s:%s:%s' % (probs[0], kind_of(cls), region, block, 'inside-report-send' if sending else 'other')
+        last = 'inside-report-send' if sending else 'other'
+        if region == 'pre-target' and not sending:
+            # before the target: name the library function the request landed in (start-up steps differ in what they have set up)
+            last = 'in-' + str(dg['point'].get('func'))
+        key = '%s:%s:%s:%s:%s' % (probs[0], kind_of(cls), region, block, last)
         if lp.stdlib_internal(dg['point']):
             key = 'terminate-inside-stdlib-lock-internals:%s' % kind_of(cls)
         chk.violation(key, '%s/%s: terminate landing at %s line %s (%s, region %s): %s; outcome shape %s, terminate=%s' % (
